@@ -256,6 +256,25 @@ CHECKS["C19"] = dict(
     assumptions=["simple graphs (no self-loops, no multi-edges); connected for peel()"],
 )
 
+CHECKS["C11"] = dict(
+    stages=[stage("C11", quick=dict(cases=3000, size=100, shards=12), thorough=dict(cases=200000, size=100, shards=16), case_timeout=600)],
+    technique="rapidcheck property-based testing of short API histories (build, optionally move before the first transaction, route, "
+              "move/resize shapes or junctions, re-route) with validity predicates and an independent recomputation of pin positions",
+    level_text="Generated scenes of 1-5 well-separated rectangles with 1-5 distinct pins per pinned shape (proportional / absolute offsets, "
+               "edge pins with direction masks and inside offsets, interior pins, exclusive or shared, connection costs), 0-2 junctions, "
+               "1-5 connectors (free point / pin class / junction to pin class, never exceeding the capacity of an exclusive class), 0-2 "
+               "checkpoints; a pinned shape may be moved before the first transaction, then up to two move/resize/junction-move steps "
+               "each followed by processTransaction().  After every transaction: each pin is where its documented offsets put it on the "
+               "current polygon, pin-attached ends sit exactly on a pin of the class on that shape, exclusive pin positions are not "
+               "over-used, orthogonal routes leave a pin in a permitted direction, junction ends equal the junction position, free ends "
+               "are exact, checkpoints lie on route() in order.",
+    level_note="Checkpoint visiting is judged on route() (C10 owns what nudging does to checkpoints).  Shapes are >= 8 apart and free points >= 4 from shapes so that every pin is reachable.",
+    rule="rapidcheck-generated pin scenes and move histories; non-trivial = some connector has >= 2 candidate pins, or a checkpoint, or the "
+         "history contains a move; distinct by FNV-1a of the case text",
+    min_nontrivial=dict(quick=800, thorough=40000),
+    assumptions=["distinct pin positions per class (the library's pin set de-duplicates equal pins)"],
+)
+
 # every check treats a library assertion at a site that is not a listed C15 finding as a violation of its own property
 for _k in CHECKS:
     NOT_APPLICABLE.pop(_k, None)
